@@ -228,12 +228,12 @@ type PolObs struct {
 type EvObs struct {
 	Kind     string `json:"kind"`
 	Key      string `json:"key"`
-	Op       string `json:"op"`       // add | update | update-irrelevant | delete
-	Relevant bool   `json:"relevant"` // Service update: verdict of hasServiceChanges; true otherwise
-	Queued   int    `json:"queued"`   // tasks the handler put on the work queue
-	Regen    bool   `json:"regen"`    // the configuration file of the resource was written again
-	Stale    bool   `json:"stale"`    // after the event, regenerating the resource would still change its file
-	Dep      bool   `json:"dep"`      // the extended resource was observed to depend on the object (create*Ex level)
+	Op       string `json:"op"`                 // add | update | update-irrelevant | delete
+	Relevant bool   `json:"relevant"`           // Service update: verdict of hasServiceChanges; true otherwise
+	Queued   int    `json:"queued"`             // tasks the handler put on the work queue
+	Regen    bool   `json:"regen"`              // the configuration file of the resource was written again
+	Stale    bool   `json:"stale"`              // after the event, regenerating the resource would still change its file
+	Dep      bool   `json:"dep"`                // the extended resource was observed to depend on the object (create*Ex level)
 	Recreate string `json:"recreate,omitempty"` // history: this Policy was stored unusable, seen by a Secret sync, deleted and created again usable before the event
 	Err      string `json:"err,omitempty"`
 }
